@@ -288,7 +288,10 @@ namespace
                     auto value = res->data_try<d_boolean, bool>();
                     if (value.has_value())
                     {
-                        return result::ok;
+                        if (*value)
+                        { // condition satisfied, stop waiting
+                            return result::ok;
+                        }
                     }
                     else
                     {
